@@ -3,6 +3,7 @@ package main
 import (
 	"context"
 	"fmt"
+	"reflect"
 	"sort"
 
 	"github.com/smart-core-os/sc-api/go/traits"
@@ -101,6 +102,7 @@ func (g *c06) read(op int, msg proto.Message, fm *fieldmaskpb.FieldMask, js map[
 		}
 	}()
 	if !proto.Equal(passed, msg) {
+		js["message_after_read"] = vmsg.JSON(passed) // the failing observation: what the message read has become
 		g.o.Directs = append(g.o.Directs, vcoq.Direct{What: opNames[op] + " with a read mask changed the message it was reading",
 			Class: "read-mutated:" + opNames[op], Replay: js})
 	}
@@ -111,7 +113,55 @@ func (g *c06) read(op int, msg proto.Message, fm *fieldmaskpb.FieldMask, js map[
 	if panicked {
 		return "Panic", "panic", true
 	}
+	if op == opFilterClone && res != nil {
+		// aliasing: which message structs of the result are structs of the message passed in
+		src := map[uintptr]bool{}
+		walkNodes(passed.ProtoReflect(), func(p uintptr) { src[p] = true })
+		shared := 0
+		walkNodes(res.ProtoReflect(), func(p uintptr) {
+			if src[p] {
+				shared++
+			}
+		})
+		same := nodePtr(res.ProtoReflect()) == nodePtr(passed.ProtoReflect())
+		term := vcoq.App("KAlias", vmsg.TypeName(msg), vmsg.Mask(fm), vmsg.Value(msg), vcoq.Int(shared), vcoq.Bool(same))
+		ajs := map[string]any{"op": "FilterClone aliasing", "type": js["type"], "message": js["message"], "read_mask": js["read_mask"],
+			"shared_structs": shared, "same_root": same}
+		cls := "alias:none"
+		if same {
+			cls = "alias:same-object"
+		} else if shared > 0 {
+			cls = "alias:shares-structs"
+		}
+		g.o.Add(vcoq.Case{Coq: term, JSON: ajs, Key: term, NonTrivial: fm != nil, Tags: []string{"op:FilterClone.aliasing", cls}})
+	}
 	return "(Ok " + vmsg.Value(res) + ")", vmsg.JSON(res), false
+}
+
+func nodePtr(m protoreflect.Message) uintptr {
+	return reflect.ValueOf(m.Interface()).Pointer()
+}
+
+// walkNodes visits every populated message struct reachable from m (m included), as vmsg.Value shows them
+func walkNodes(m protoreflect.Message, f func(uintptr)) {
+	f(nodePtr(m))
+	m.Range(func(fd protoreflect.FieldDescriptor, v protoreflect.Value) bool {
+		switch {
+		case fd.IsMap():
+			if fd.MapValue().Message() != nil {
+				v.Map().Range(func(_ protoreflect.MapKey, e protoreflect.Value) bool { walkNodes(e.Message(), f); return true })
+			}
+		case fd.IsList():
+			if fd.Message() != nil {
+				for i := 0; i < v.List().Len(); i++ {
+					walkNodes(v.List().Get(i).Message(), f)
+				}
+			}
+		case fd.Message() != nil:
+			walkNodes(v.Message(), f)
+		}
+		return true
+	})
 }
 
 // one observation: Validate (for op FilterClone) and the read itself
@@ -288,6 +338,18 @@ func (g *c06) maskFor(msg proto.Message, class string) (*fieldmaskpb.FieldMask, 
 			ps = append(ps, some())
 		}
 		return &fieldmaskpb.FieldMask{Paths: ps}, vmsg.PathValid, true
+	case "family", "chain":
+		// a parent path together with k = 0..3 paths below it (any depth), or a chain p / p.a / p.a.b,
+		// with duplicates and unrelated paths mixed in, in a random order
+		ps, ok := familyPaths(r, msg, class == "chain")
+		if !ok {
+			return nil, 0, false
+		}
+		if r.Chance(30) {
+			ps = append(ps, some())
+		}
+		shuffle(r, ps)
+		return &fieldmaskpb.FieldMask{Paths: ps}, vmsg.PathValid, true
 	case "through-repeated-message":
 		p, ok := populatedPath(r, msg.ProtoReflect(), true)
 		kind := vmsg.PathValid
@@ -307,6 +369,103 @@ func (g *c06) maskFor(msg proto.Message, class string) (*fieldmaskpb.FieldMask, 
 		return &fieldmaskpb.FieldMask{Paths: ps}, kind, true
 	}
 	panic("unknown class " + class)
+}
+
+// populatedMsgPaths lists the paths of the populated singular message fields of m (nested ones too)
+func populatedMsgPaths(m protoreflect.Message, prefix string, depth int) []string {
+	var out []string
+	var fds []protoreflect.FieldDescriptor
+	m.Range(func(fd protoreflect.FieldDescriptor, _ protoreflect.Value) bool { fds = append(fds, fd); return true })
+	sort.Slice(fds, func(i, j int) bool { return fds[i].Number() < fds[j].Number() })
+	for _, fd := range fds {
+		if fd.Message() == nil || fd.IsList() || fd.IsMap() || fd.Message().Fields().Len() == 0 {
+			continue
+		}
+		p := prefix + string(fd.Name())
+		out = append(out, p)
+		if depth > 0 {
+			out = append(out, populatedMsgPaths(m.Get(fd).Message(), p+".", depth-1)...)
+		}
+	}
+	return out
+}
+
+// descriptorMsgPaths is populatedMsgPaths over the descriptor (for messages with no populated sub-message)
+func descriptorMsgPaths(md protoreflect.MessageDescriptor, prefix string, depth int) []string {
+	var out []string
+	for i := 0; i < md.Fields().Len(); i++ {
+		fd := md.Fields().Get(i)
+		if fd.Message() == nil || fd.IsList() || fd.IsMap() || fd.Message().Fields().Len() == 0 {
+			continue
+		}
+		p := prefix + string(fd.Name())
+		out = append(out, p)
+		if depth > 0 {
+			out = append(out, descriptorMsgPaths(fd.Message(), p+".", depth-1)...)
+		}
+	}
+	return out
+}
+
+func descriptorAt(md protoreflect.MessageDescriptor, p string) protoreflect.MessageDescriptor {
+	for _, s := range splitPath(p) {
+		md = md.Fields().ByName(protoreflect.Name(s)).Message()
+	}
+	return md
+}
+
+// familyPaths: a parent path (a singular message field, populated when possible) with k = 0..3 valid
+// paths below it at any depth - distinct children preferred so that "parent + two children" is frequent -
+// or the chain parent / parent.a / parent.a.b as deep as the type goes; a duplicate now and then.
+func familyPaths(r *vcoq.Rand, msg proto.Message, chain bool) ([]string, bool) {
+	md := msg.ProtoReflect().Descriptor()
+	parents := populatedMsgPaths(msg.ProtoReflect(), "", 2)
+	if len(parents) == 0 || r.Chance(15) {
+		parents = descriptorMsgPaths(md, "", 1)
+	}
+	if len(parents) == 0 {
+		return nil, false
+	}
+	p := parents[r.Intn(len(parents))]
+	ps := []string{p}
+	if chain {
+		cur := p
+		for d := 0; d < 3; d++ {
+			c, ok := childOf(r, md, cur)
+			if !ok {
+				break
+			}
+			ps = append(ps, c)
+			cur = c
+		}
+	} else {
+		sub := descriptorAt(md, p)
+		k := r.Intn(4)
+		seen := map[string]bool{}
+		for i := 0; i < k; i++ {
+			var c string
+			for try := 0; try < 6; try++ {
+				c = p + "." + vmsg.ValidPath(r, sub, 30, 2)
+				if !seen[c] {
+					break
+				}
+			}
+			seen[c] = true
+			ps = append(ps, c)
+		}
+	}
+	if r.Chance(25) {
+		ps = append(ps, ps[r.Intn(len(ps))]) // duplicate
+	}
+	return ps, true
+}
+
+// shuffle: Fisher-Yates driven by the run's seeded generator
+func shuffle(r *vcoq.Rand, ps []string) {
+	for i := len(ps) - 1; i > 0; i-- {
+		j := r.Intn(i + 1)
+		ps[i], ps[j] = ps[j], ps[i]
+	}
 }
 
 func splitPath(p string) []string {
@@ -347,22 +506,24 @@ func genC06(o *vcoq.Out, r *vcoq.Rand, tier string) error {
 	o.CaseType = "c06case"
 	o.Judge = "judge"
 	o.Shard = 120
-	o.Rule = "random messages of TestAllTypes (all field kinds, depth <= 2) and traits Brightness, AirTemperature, ElectricMode built by reflection from tiny value alphabets; read masks by class: nil, empty, single, multi (2-5 paths), duplicate, parent+child, child+parent, siblings, through-repeated-message (75% of paths walk POPULATED fields so projections are non-empty); a malformed stream with one corrupted path per mask (unknown segment, continuation through scalar / map / repeated scalar / repeated message, empty segment) alone or next to valid paths. Each (message, mask) is read by FilterClone (+Validate) and, for a third of them, also by Filter, Value.Get, Collection.List and the seed of Value.Pull. Event path: 45 backpressured streams per run (Collection.Pull + PullID over Add, Update, Delete, and with WithInclude an Update that stops matching; Value.Pull over seed + 2 Sets) with a read mask: the new AND old value of every event is judged against the projection of what the writes returned as stored. Non-trivial: non-empty mask on a non-empty message; distinct by the full case term."
+	o.Rule = "random messages of TestAllTypes (all field kinds, depth <= 2) and traits Brightness, AirTemperature, ElectricMode built by reflection from tiny value alphabets; read masks by class: nil, empty, single, multi (2-5 paths), duplicate, parent+child, child+parent, siblings, prefix-named siblings, through-repeated-message, family (a parent path + 0..3 paths below it at any depth, duplicates, shuffled), chain (p / p.a / p.a.b, shuffled) - the last two read by EVERY consumer (75% of paths walk POPULATED fields so projections are non-empty); a malformed stream with one corrupted path per mask (unknown segment, continuation through scalar / map / repeated scalar / repeated message, empty segment) alone or next to valid paths. Each (message, mask) is read by FilterClone (+Validate) and, for a third of them, also by Filter, Value.Get, Collection.List and the seed of Value.Pull. Event path: 45 backpressured streams per run (Collection.Pull + PullID over Add, Update, Delete, and with WithInclude an Update that stops matching; Value.Pull over seed + 2 Sets) with a read mask: the new AND old value of every event is judged against the projection of what the writes returned as stored. Every FilterClone also yields an aliasing observation (message-struct pointers shared with the message passed in, same root) judged against the ownership model. Fixed: nil / typed-nil messages and messages with unknown fields (no panic, source untouched). Non-trivial: non-empty mask on a non-empty message; distinct by the full case term."
 	g := &c06{o: o, r: r}
 	scale := 1
 	if tier == "thorough" {
-		scale = 15
+		scale = 10 // 15 took 13-14 min with the machine loaded by other checks; keep headroom under 15 min
 	}
 	classes := []string{"nil", "empty", "single", "single", "multi", "multi", "duplicate", "parent+child", "parent+child",
-		"child+parent", "child+parent", "siblings", "through-repeated-message", "prefix-named-siblings", "prefix-named-siblings"}
+		"child+parent", "child+parent", "siblings", "through-repeated-message", "prefix-named-siblings", "prefix-named-siblings",
+		"family", "family", "family", "chain"}
 	cfgs := []vmsg.RandCfg{vmsg.DefaultCfg, {FieldPct: 60, Depth: 2, MaxList: 2}, {FieldPct: 12, Depth: 3, MaxList: 3}}
 	emit := func(msg proto.Message, fm *fieldmaskpb.FieldMask, kind vmsg.PathKind, class string) {
 		panicked := g.observe(opFilterClone, msg, fm, kind, class)
-		if r.Chance(33) {
+		every := class == "family" || class == "chain" // overlapping paths: every mask consumer, every time
+		if every || r.Chance(33) {
 			for _, op := range []int{opFilter, opValueGet, opList, opPullSeed} {
 				// Pull filters on a goroutine of the library: a panic there cannot be recovered by the
 				// harness, so it is only exercised with inputs FilterClone survived
-				if r.Chance(50) && !(panicked && op == opPullSeed) {
+				if (every || r.Chance(50)) && !(panicked && op == opPullSeed) {
 					g.observe(op, msg, fm, kind, class)
 				}
 			}
@@ -425,15 +586,38 @@ func genC06(o *vcoq.Out, r *vcoq.Rand, tier string) error {
 	// the inputs of the two defects repaired in pkg/masks/get.go, always present
 	st := &testproto.TestAllTypes{DefaultInt32: 7, DefaultForeignMessage: &testproto.ForeignMessage{C: 1, D: 2},
 		MapStringNestedMessage: map[string]*testproto.TestAllTypes_NestedMessage{"a": {A: 1}}, RepeatedInt32: []int32{1, 2}}
-	for _, fix := range []struct {
+	type fixedMask struct {
 		paths []string
 		kind  vmsg.PathKind
 		class string
-	}{
+	}
+	fixes := []fixedMask{}
+	// a parent path with TWO paths below it, in all six orders, and the chain p / p.a / p.a.b
+	{
+		a, b, c := "default_foreign_message", "default_foreign_message.c", "default_foreign_message.d"
+		for _, ps := range [][]string{{a, b, c}, {a, c, b}, {b, a, c}, {b, c, a}, {c, a, b}, {c, b, a}, {a, b, c, "default_int32"}, {b, a, a, c}} {
+			fixes = append(fixes, fixedMask{ps, vmsg.PathValid, "family"})
+		}
+	}
+	st2 := &testproto.TestAllTypes{DefaultInt32: 5, DefaultNestedMessage: &testproto.TestAllTypes_NestedMessage{A: 9,
+		Corecursive: &testproto.TestAllTypes{DefaultInt32: 90, DefaultString: "x", DefaultForeignMessage: &testproto.ForeignMessage{C: 1, D: 2}}}}
+	{
+		n, co := "default_nested_message", "default_nested_message.corecursive"
+		for _, ps := range [][]string{
+			{n, n + ".a", co}, {co, n + ".a", n}, {n, co, co + ".default_int32"}, {co + ".default_int32", co, n},
+			{n, co + ".default_int32", co + ".default_string"}, {co + ".default_string", n, co + ".default_int32", n + ".a"},
+			{co + ".default_foreign_message", co + ".default_foreign_message.c", co + ".default_foreign_message.d"},
+		} {
+			for _, op := range []int{opFilterClone, opFilter, opValueGet, opList, opPullSeed} {
+				g.observe(op, st2, &fieldmaskpb.FieldMask{Paths: ps}, vmsg.PathValid, "family")
+			}
+		}
+	}
+	for _, fix := range append(fixes, []fixedMask{
 		{[]string{"default_foreign_message", "default_foreign_message.c"}, vmsg.PathValid, "parent+child"},
 		{[]string{"map_string_nested_message.a"}, vmsg.PathThroughMap, "corrupt:through-map"},
 		{[]string{"repeated_int32.x", "default_int32.y"}, vmsg.PathThroughRepScalar, "corrupt:through-repeated-scalar"},
-	} {
+	}...) {
 		panicked := false
 		for _, op := range []int{opFilterClone, opFilter, opValueGet, opList, opPullSeed} {
 			if panicked && op == opPullSeed {
@@ -444,5 +628,85 @@ func genC06(o *vcoq.Out, r *vcoq.Rand, tier string) error {
 			}
 		}
 	}
+	g.nilAndUnknown()
 	return nil
+}
+
+// nilAndUnknown: the inputs outside the tree model - a nil message (untyped and typed), and unknown fields.
+// Observed directly: no read or validation panics on a nil message and a nil message stays nil; unknown
+// fields are not addressed by any mask: a non-empty read mask keeps them, an empty one drops them, the
+// source keeps them in every case.
+func (g *c06) nilAndUnknown() {
+	masksToTry := []*fieldmaskpb.FieldMask{nil, {}, {Paths: []string{"default_int32"}}, {Paths: []string{"default_foreign_message.c", "zzz"}}}
+	var typedNil *testproto.TestAllTypes
+	for _, fm := range masksToTry {
+		for _, msg := range []proto.Message{nil, typedNil} {
+			if msg != nil && fm != nil && len(fm.Paths) == 0 {
+				// documented, outside the property's quantifier: proto.Reset dereferences a typed nil pointer,
+				// so Filter / FilterClone of a typed nil message with an EMPTY mask panic (notes/C06.md)
+				continue
+			}
+			js := map[string]any{"op": "nil-message", "typed": msg != nil, "read_mask": vmsg.MaskJSON(fm)}
+			func() {
+				defer func() {
+					if p := recover(); p != nil {
+						js["panic"] = fmt.Sprint(p)
+						g.o.Directs = append(g.o.Directs, vcoq.Direct{What: "a read of a nil message panicked", Class: "panic:nil-message", Replay: js})
+					}
+				}()
+				f := masks.NewResponseFilter(masks.WithFieldMask(fm))
+				if msg != nil {
+					_ = f.Validate(msg)
+				}
+				f.Filter(msg)
+				res := f.FilterClone(msg)
+				if res != nil && res.ProtoReflect().IsValid() {
+					g.o.Directs = append(g.o.Directs, vcoq.Direct{What: "FilterClone of a nil message returned a message", Class: "nil-message-result", Replay: js})
+				}
+			}()
+		}
+		// unknown fields (field number 999, varint 7)
+		unk := []byte{0xb8, 0x3e, 0x07}
+		m := &testproto.TestAllTypes{DefaultInt32: 7, DefaultForeignMessage: &testproto.ForeignMessage{C: 1, D: 2}}
+		m.ProtoReflect().SetUnknown(unk)
+		m.DefaultForeignMessage.ProtoReflect().SetUnknown(unk)
+		js := map[string]any{"op": "unknown-fields", "read_mask": vmsg.MaskJSON(fm)}
+		func() {
+			defer func() {
+				if p := recover(); p != nil {
+					js["panic"] = fmt.Sprint(p)
+					g.o.Directs = append(g.o.Directs, vcoq.Direct{What: "a read of a message with unknown fields panicked", Class: "panic:unknown-fields", Replay: js})
+				}
+			}()
+			res := masks.NewResponseFilter(masks.WithFieldMask(fm)).FilterClone(m)
+			if len(m.ProtoReflect().GetUnknown()) != 3 || len(m.DefaultForeignMessage.ProtoReflect().GetUnknown()) != 3 {
+				g.o.Directs = append(g.o.Directs, vcoq.Direct{What: "FilterClone dropped unknown fields of the message it was reading", Class: "read-mutated:FilterClone", Replay: js})
+			}
+			// the known fields are still exactly the projection
+			known := proto.Clone(res)
+			known.ProtoReflect().SetUnknown(nil)
+			if fmsg := known.(*testproto.TestAllTypes).DefaultForeignMessage; fmsg != nil {
+				fmsg.ProtoReflect().SetUnknown(nil)
+			}
+			g.observeGiven(opFilterClone, m, fm, known, js)
+		}()
+	}
+}
+
+// observeGiven adds a KRead case for a result computed by the caller (known fields only)
+func (g *c06) observeGiven(op int, msg proto.Message, fm *fieldmaskpb.FieldMask, res proto.Message, js map[string]any) {
+	corrupt := vmsg.PathValid
+	if fm != nil {
+		for _, p := range fm.Paths {
+			if p == "zzz" {
+				corrupt = vmsg.PathUnknown
+			}
+		}
+	}
+	code := int64(status.Code(masks.NewResponseFilter(masks.WithFieldMask(fm)).Validate(proto.Clone(msg))))
+	js["type"] = string(msg.ProtoReflect().Descriptor().FullName())
+	js["message"] = vmsg.JSON(msg)
+	js["result"] = vmsg.JSON(res)
+	term := vcoq.App("KRead", vcoq.Int(op), vmsg.TypeName(msg), vmsg.Mask(fm), vcoq.Int(int(corrupt)), vmsg.Value(msg), vcoq.Z(code), "(Ok "+vmsg.Value(res)+")")
+	g.o.Add(vcoq.Case{Coq: term, JSON: js, Key: term, NonTrivial: true, Tags: []string{"op:" + opNames[op], "mask:unknown-fields-present", "result:ok", fmt.Sprintf("validate:%d", code)}})
 }
